@@ -333,6 +333,20 @@ example : ∃ cur', removePbcStep K orthoEx [⟨1, 1, 1⟩, ⟨15, 1, 1⟩, ⟨-
     [⟨1, 1, 1⟩, ⟨15, 1, 1⟩, ⟨-2, 9, 1⟩, ⟨3, 3, 3⟩] [0, 2] (by decide) (by decide)
   exact ⟨cur', h, by rw [ho 1 (by decide)]; rfl, by rw [ho 3 (by decide)]; rfl⟩
 
+/-- `remove_pbc(atoms, selection)`: a molecule mask is intersected with the selection before anything else, so an
+atom that is not selected keeps its coordinates in that step (and the selected part of the molecule is treated like a
+molecule of its own, `C15_remove_pbc_molecule_step`). -/
+theorem C15_remove_pbc_selection (b : Box) (hdet : b.det ≠ 0) (cur : List Vec) (mol : List Nat) (sel : List Bool)
+    (hnd : mol.Nodup) (hlt : ∀ i ∈ mol, i < cur.length) :
+    ∃ cur', removePbcStep K b cur (mol.filter (fun i => sel.getD i false)) = .ok cur' ∧ cur'.length = cur.length ∧
+      ∀ i, sel.getD i false = false → cur'[i]? = cur[i]? := by
+  obtain ⟨cur', _, _, h, -, hl, ho, -⟩ := C15_remove_pbc_molecule_step b hdet cur (mol.filter (fun i => sel.getD i false))
+    (hnd.filter _) (fun i hi => hlt i (List.mem_filter.mp hi).1)
+  refine ⟨cur', h, hl, fun i hi => ho i ?_⟩
+  intro hm
+  have := (List.mem_filter.mp hm).2
+  simp [hi] at this
+
 /-! ## Unit cell ↔ box vectors (partial: algebraic core only) -/
 
 /-- `unitcell_from_vectors ∘ vectors_from_unitcell = id` up to the transcendental functions: over any
